@@ -7,6 +7,7 @@ package aa
 import (
 	"fmt"
 	"regexp"
+	"slices"
 	"strings"
 
 	"github.com/roddhjav/apparmor.d/pkg/paths"
@@ -36,7 +37,10 @@ func (f *AppArmorProfileFile) Resolve() error {
 				return fmt.Errorf("variable %s already defined", variable.Name)
 			}
 			seen[variable.Name].Values = append(seen[variable.Name].Values, variable.Values...)
-			f.Preamble = f.Preamble.Delete(idx)
+			// idx counts variables only: look the rule up in the whole preamble
+			if idx = slices.Index(f.Preamble, Rule(variable)); idx != -1 {
+				f.Preamble = f.Preamble.Delete(idx)
+			}
 		}
 		if variable.Define {
 			seen[variable.Name] = variable
